@@ -474,6 +474,9 @@ def r_named(c):
     m = c.model
     fd = m.func("pytato.codegen._generate_name_for_temp")
     vg = fd.args.args[1].arg
+    # (normal form: naming helpers inlined, a loop over a table of (tag type, namer)
+    # rows written out)
+    fd = m.normal(fd)
 
     def cl(n):
         if isinstance(n, ast.Call):
